@@ -466,6 +466,10 @@ func init() {
 			if s.Conc != nil && (strings.HasPrefix(*s.Conc, "modaddr:") || strings.HasPrefix(*s.Conc, "addr:")) {
 				return VTuple{a[0], nilErr()}
 			}
+			if s.Bytes != nil && len(s.Bytes) == 20 {
+				// byte-level strings of length 20 stand for the bech32 rendering of those 20 bytes (String() is the identity)
+				return VTuple{termsToSlice(ex, append([]Term{}, s.Bytes...)), nilErr()}
+			}
 			return VTuple{VSlice{}, ex.mkErr("decoding bech32 failed", nil)}
 		}
 		m["github.com/cosmos/cosmos-sdk/types.AccAddressFromBech32"] = fromBech
@@ -527,6 +531,54 @@ func init() {
 				sum = Add(sum, Ite(ex.strEq(cs.F[0].(VStr), a[1].(VStr)), ti(cs.F[1]), IntC(0)))
 			}
 			return VInt{sum}
+		}
+		// single-denomination arithmetic on coin sets
+		coinsSum := func(ex *Exec, v Value) (string, Term, int) {
+			denom := ""
+			sum := IntC(0)
+			es := sliceElems(v)
+			for _, c := range es {
+				cs := c.(VStruct)
+				d := cstr(cs.F[0])
+				if denom != "" && d != denom {
+					panic(unsupported{"coin sets with several denominations"})
+				}
+				denom = d
+				sum = Add(sum, ti(cs.F[1]))
+			}
+			return denom, sum, len(es)
+		}
+		mkCoins := func(ex *Exec, denom string, amt Term) Value {
+			if ex.decide(Eq(amt, IntC(0))) {
+				return ex.mkSlice([]Value{})
+			}
+			return ex.mkSlice([]Value{VStruct{[]Value{concStr(denom), VInt{amt}}}})
+		}
+		m["(github.com/cosmos/cosmos-sdk/types.Coins).Add"] = func(ex *Exec, fr *frame, cc *ssa.CallCommon, a []Value) Value {
+			d1, s1, _ := coinsSum(ex, a[0])
+			d2, s2, _ := coinsSum(ex, a[1])
+			if d1 == "" {
+				d1 = d2
+			}
+			if d2 != "" && d2 != d1 {
+				panic(unsupported{"coin sets with several denominations"})
+			}
+			return mkCoins(ex, d1, ex.nameT(Add(s1, s2)))
+		}
+		m["(github.com/cosmos/cosmos-sdk/types.Coins).Sub"] = func(ex *Exec, fr *frame, cc *ssa.CallCommon, a []Value) Value {
+			d1, s1, _ := coinsSum(ex, a[0])
+			d2, s2, _ := coinsSum(ex, a[1])
+			if d1 == "" {
+				d1 = d2
+			}
+			if d2 != "" && d2 != d1 {
+				panic(unsupported{"coin sets with several denominations"})
+			}
+			diff := ex.nameT(Sub(s1, s2))
+			if ex.decide(Lt(diff, IntC(0))) {
+				panic(goPanic{"negative coin amount"})
+			}
+			return mkCoins(ex, d1, diff)
 		}
 		m["(github.com/cosmos/cosmos-sdk/types.Coins).IsZero"] = func(ex *Exec, fr *frame, cc *ssa.CallCommon, a []Value) Value {
 			r := BoolC(true)
@@ -882,6 +934,19 @@ func init() {
 		m["cosmossdk.io/collections/indexes.CollectValues"] = collect(false)
 		m["cosmossdk.io/collections/indexes.CollectKeyValues"] = collect(true)
 
+		// ---------------- codec: Marshal is an injective function of the value (structural equality)
+		marshal := func(ex *Exec, fr *frame, cc *ssa.CallCommon, a []Value) Value {
+			v := a[1]
+			if iv, ok := v.(VIface); ok {
+				v = iv.V
+			}
+			if p, ok := v.(VPtr); ok && p.O != nil {
+				v = p.load()
+			}
+			return VOpaque{Kind: "marshaled", Data: ex.deepCopy(v)}
+		}
+		m["invoke:github.com/cosmos/cosmos-sdk/codec.BinaryCodec.MustMarshal"] = marshal
+		m["invoke:github.com/cosmos/cosmos-sdk/codec.Codec.MustMarshal"] = marshal
 		// ---------------- nd helpers for environments
 		m["nd:ndEnv"] = func(ex *Exec, fr *frame, cc *ssa.CallCommon, a []Value) Value {
 			res := cc.Signature().Results()
